@@ -94,7 +94,13 @@ func (in *Interp) initMain() (err error) {
 			}
 		}
 	}()
-	in.globals = map[*ssa.Global]*Value{}
+	// (re)initialise the package under test only: library packages keep the state
+	// their own initialisers built (their initDone flag stays set)
+	for g := range in.globals {
+		if g.Pkg == in.mainPkg {
+			delete(in.globals, g)
+		}
+	}
 	in.runInit(in.mainPkg)
 	// collect global slots for the dirty/frozen monitors
 	in.globalSlot = nil
@@ -250,7 +256,7 @@ func runHarnesses(ld *Loaded, cfg *RunConfig, harnesses []string, workers int, m
 	cond := sync.NewCond(&mu)
 	var queue []WorkItem
 	for _, h := range harnesses {
-		queue = append(queue, WorkItem{Harness: h})
+		queue = append(queue, WorkItem{Harness: h, Forced: cfg.ForcedStart})
 	}
 	active := 0
 	violSeen := map[string]int{}
@@ -310,6 +316,15 @@ func runHarnesses(ld *Loaded, cfg *RunConfig, harnesses []string, workers int, m
 							v = cfg.Args[i]
 						}
 						args = append(args, in.mkInt(int64(v)))
+					}
+					if os.Getenv("SYMGO_FRESH") == "qcache" {
+						in.qcache = map[string]Result{}
+					}
+					if os.Getenv("SYMGO_FRESH") == "solver" {
+						in.solver.Close()
+						in.solver, _ = NewSolver(cfg.Solver, in.ts, cfg.TimeoutMs)
+						in.isolver.Close()
+						in.isolver = nil
 					}
 					res := in.RunPath(fn, args, item.Forced)
 					sibs = res.Siblings
@@ -543,6 +558,7 @@ func cmdRun(argv []string) {
 	nosum := fs.Bool("nosummaries", false, "disable pure-function summaries")
 	maporders := fs.Bool("maporders", false, "explore map iteration orders")
 	out := fs.String("out", "", "write JSON summary")
+	forced := fs.String("forced", "", "comma-separated decision prefix: run exactly that path")
 	fs.Parse(argv)
 	ld, err := loadRepo(*repo, *hdir, "verif")
 	if err != nil {
@@ -550,6 +566,15 @@ func cmdRun(argv []string) {
 		os.Exit(2)
 	}
 	cfg := &RunConfig{MaxSteps: *maxSteps, Summaries: !*nosum, TimeoutMs: *tmo, Solver: *solver, Verbose: *verbose, Args: []int{*tier}, MapOrders: *maporders}
+	if *forced != "" {
+		for _, x := range strings.Split(*forced, ",") {
+			var v int
+			fmt.Sscan(x, &v)
+			cfg.ForcedStart = append(cfg.ForcedStart, v)
+		}
+		*maxPaths = 1
+		*workers = 1
+	}
 	sum, err := runHarnesses(ld, cfg, strings.Split(*names, ","), *workers, *maxPaths, time.Time{})
 	if err != nil {
 		fmt.Fprintln(os.Stderr, "run:", err)
